@@ -119,17 +119,19 @@ theorem gapSizeFor_pos (offset size : Nat) : 0 < gapSizeFor offset size := by
   unfold gapSizeFor; repeat' split
   all_goals omega
 
-/-- `ConstPool_addGap(self, offset, size)`: `while (size > 0) { … push a gap …; offset += gap_size; size -= gap_size; }` -/
-def addGap (gaps : List (List Gap)) (offset size : Nat) : List (List Gap) :=
-  if size = 0 then gaps
-  else
-    let gi := gapIndexFor offset size
-    let gs := gapSizeFor offset size
-    addGap (setAt gaps gi ({ offset := offset, size := gs } :: getAt gaps gi)) (offset + gs) (size - gs)
-termination_by size
-decreasing_by
-  have := gapSizeFor_pos offset size
-  omega
+/-- `ConstPool_addGap(self, offset, size)`: `while (size > 0) { … push a gap …; offset += gap_size; size -= gap_size; }`.
+`fuel` bounds the number of iterations (every iteration takes at least one byte off `size`, so `size` iterations suffice);
+structural recursion keeps the function evaluable inside Lean's kernel. -/
+def addGapAux : Nat → List (List Gap) → Nat → Nat → List (List Gap)
+  | 0, gaps, _, _ => gaps
+  | fuel + 1, gaps, offset, size =>
+    if size = 0 then gaps
+    else
+      let gi := gapIndexFor offset size
+      let gs := gapSizeFor offset size
+      addGapAux fuel (setAt gaps gi ({ offset := offset, size := gs } :: getAt gaps gi)) (offset + gs) (size - gs)
+
+def addGap (gaps : List (List Gap)) (offset size : Nat) : List (List Gap) := addGapAux size gaps offset size
 
 /-! ### `ConstPool::add` -/
 
